@@ -100,6 +100,35 @@ def norm(t):
     raise AssertionError("unclassified type spec %r" % (t,))
 
 
+# ARC-4 types that a method signature may name but that PyTeal has no type for
+EXOTIC = ["uint24", "uint40", "uint48", "uint56", "uint72", "uint128", "uint256", "uint512", "ufixed64x2", "ufixed8x1",
+          "uint24[]", "uint24[2]", "(bool,uint24)", "(uint40,string)", "uint128[3]", "(uint56)", "uint48[][]"]
+
+
+def norm_sdk(t):
+    """the same normal form for a type of the reference codec (parsed from an ARC-4 type string)"""
+    s = type(t).__name__
+    if s == "BoolType":
+        return ("bool",)
+    if s == "ByteType":
+        return ("uint", 8)
+    if s == "UintType":
+        return ("uint", t.bit_size)
+    if s == "UfixedType":
+        return ("ufixed", t.bit_size, t.precision)
+    if s == "AddressType":
+        return ("sarr", ("uint", 8), 32)
+    if s == "StringType":
+        return ("darr", ("uint", 8))
+    if s == "ArrayStaticType":
+        return ("sarr", norm_sdk(t.child_type), t.static_length)
+    if s == "ArrayDynamicType":
+        return ("darr", norm_sdk(t.child_type))
+    if s == "TupleType":
+        return ("tuple",) + tuple(norm_sdk(x) for x in t.child_types)
+    raise AssertionError("unclassified reference type %r" % (t,))
+
+
 def same_layout(a, b):
     na, nb = norm(a), norm(b)
     if na[0] == "txn" and nb[0] == "txn":
@@ -223,6 +252,19 @@ def _worker(items, base):
                         out["violations"].append({"driver": "setsite", "size": 1,
                                                   "title": "%s().set(<%s value>) is accepted although their ARC-4 layouts differ" % (b, a),
                                                   "a": str(a), "b": str(b), "ia": i, "ib": j, "features": {"why": "setsite"}})
+        # declared types that only exist as ARC-4 signature text (uint24, ufixed64x2, ...): an inner method call
+        # may only accept a value whose layout is that of the declared type
+        if norm(a)[0] not in ("ref", "txn"):
+            for e in EXOTIC:
+                acc4 = method_call_accepts(a, e)
+                if acc4 is None:
+                    continue
+                cnt["traces_validated"] = cnt.get("traces_validated", 0) + 1
+                oc["exotic_accepted" if acc4 else "exotic_refused"] = oc.get("exotic_accepted" if acc4 else "exotic_refused", 0) + 1
+                if acc4 and norm(a) != norm_sdk(sdkabi.ABIType.from_string(e)):
+                    out["violations"].append({"driver": "callsite", "size": 1,
+                                              "title": "InnerTxnBuilder.MethodCall with declared parameter type %s accepts an argument of type %s (different ARC-4 layout)" % (e, a),
+                                              "a": str(a), "b": e, "ia": i, "ib": -1, "features": {"why": "callsite-itxn"}})
         cnt["states"] = cnt.get("states", 0) + 1
         cnt["transitions"] = cnt.get("transitions", 0) + len(U)
     if items and base % 97 == 0:
@@ -268,7 +310,7 @@ def method_call_accepts(a, b):
     """does InnerTxnBuilder.MethodCall accept an ABI value of type a for a parameter declared as b?"""
     try:
         inst = a.new_instance()
-        sig = "f(%s)void" % str(b)
+        sig = "f(%s)void" % (b if isinstance(b, str) else str(b))
         sdkabi.Method.from_signature(sig)
     except Exception:
         return None
@@ -308,6 +350,12 @@ def replay(case):
     U = universe("thorough")
     cands = [t for t in U if str(t) == case["a"]], [t for t in U if str(t) == case["b"]]
     bad = False
+    if case["b"] in EXOTIC:
+        for a in cands[0]:
+            if method_call_accepts(a, case["b"]) and norm(a) != norm_sdk(sdkabi.ABIType.from_string(case["b"])):
+                print("MethodCall accepts", a, "for", case["b"])
+                bad = True
+        return bad
     for a in cands[0]:
         for b in cands[1]:
             asg = type_spec_is_assignable_to(a, b)
